@@ -18,7 +18,7 @@ therefore decided **partially**.
 
     theorem C09_outcome : ∀ sc, Good sc (run sc)            -- FALSE, see the counterexamples
 
-Five classes of scenarios violate it (each reproduced on the real driver by the check):
+Several classes of scenarios violate it (each reproduced on the real driver by the check):
 
 * `optdims`     an exception inside the option-parsing window of `OnHeader` (unknown option,
                 ill-typed value, `objno` too large) is reported in a `.sol` whose four count lines
@@ -27,6 +27,13 @@ Five classes of scenarios violate it (each reproduced on the real driver by the 
 * `code1`       `ReadError`, `BinaryReadError`, `UnsupportedError`, `Error("fmt", args…)` are
                 built by ctors that leave `exit_code_ = EXIT_FAILURE` (1); `Run` takes any
                 `exit_code() >= 0` as the solve code → `.sol` with code **1** (class "solved").
+* `hdrdims`     the same mechanism one step later: `NLProblemBuilder::OnHeader` itself throws on an
+                inconsistent header (`MP_ASSERT_ALWAYS`, `std::length_error`) with the problem partially
+                populated → the count lines are whatever was populated so far.
+* `infeas500`   `MP_INFEAS` (code 200) raised while a constraint is converted or a result propagated is
+                caught by `ConstraintKeeper`'s `catch (std::exception&)` and re-raised with `MP_RAISE`:
+                the model *is* proven infeasible ("Model infeasible: empty variable domain") but the
+                `.sol` carries 500.
 * `writeerr`    `<stub>.sol` opens but the data cannot be written (`ENOSPC`, `EIO`): `fmt::BufferedFile`
                 ignores the error → truncated/empty `.sol`, exit status 0.
 * `standalone`  without `-AMPL` and with `wantsol&1 = 0` an error is only printed on stdout (not at
@@ -84,13 +91,15 @@ NL header's and the value blocks are empty or full, *unless* the run ended insid
 option-parsing window. -/
 theorem C09_dims_partial (sc : Scenario) (e : Ending) (f : SolFile) (ech : Bool)
     (h : conclude sc e = .sol f ech)
-    (hwin : ∀ a w r, e ≠ .raised a w .options r) :
+    (hwin : ∀ a w r, e ≠ .raised a w .options r)
+    (hpop : ∀ a w r, e ≠ .raised a w .populate r) :
     f.ncons = sc.dims.ncons ∧ f.nvars = sc.dims.nvars ∧
     (f.nduals = 0 ∨ f.nduals = f.ncons) ∧ (f.nprimals = 0 ∨ f.nprimals = f.nvars) := by
   cases e with
   | info => simp [conclude] at h
   | raised a w st r =>
     have hst : st ≠ .options := fun hh => hwin a w r (by rw [hh])
+    have hsp : st ≠ .populate := fun hh => hpop a w r (by rw [hh])
     by_cases hr : r = .foreign
     · rw [hr, conclude_foreign] at h; simp at h
     · rw [conclude_raised sc a w st r hr] at h
@@ -98,10 +107,10 @@ theorem C09_dims_partial (sc : Scenario) (e : Ending) (f : SolFile) (ech : Bool)
       · rw [hi] at h; cases hx : r.toExn <;> rw [hx] at h <;> simp at h
       · cases hh : st.handlerAvailable
         · simp [hi, hh] at h
-        · have hd := dimsKnown_of_handler_ne_options st hh hst
+        · have hd := dimsKnown_of_handler_ne_options st hh hst hsp
           cases hw : wantsFile a w <;> cases ho : sc.out.canOpen <;> simp [hi, hh, hw, ho] at h
           obtain ⟨rfl, _⟩ := h
-          simp [errFile, hd]
+          simp [errFile, errDims, hd]
   | finished a w =>
     rw [conclude_finished] at h
     cases hw : wantsFile a w <;> cases ho : sc.out.canOpen <;> simp [hw, ho] at h
@@ -119,7 +128,20 @@ theorem C09_optdims_general (sc : Scenario) (a : Bool) (w : Nat) (r : Raise) (f 
     cases hw : wantsFile a w <;> cases ho : sc.out.canOpen <;>
       simp [Stage.insideRun, Stage.handlerAvailable, hw, ho] at h
     obtain ⟨rfl, _⟩ := h
-    simp [errFile, Stage.dimsKnown]
+    simp [errFile, errDims, Stage.dimsKnown]
+
+/-- **`hdrdims`, exactly.** Every `.sol` written for an exception thrown while the problem is being
+populated from the header carries the partially populated dimensions. -/
+theorem C09_hdrdims_general (sc : Scenario) (a : Bool) (w : Nat) (r : Raise) (f : SolFile) (ech : Bool)
+    (h : conclude sc (.raised a w .populate r) = .sol f ech) :
+    f.ncons = sc.partialDims.ncons ∧ f.nduals = 0 ∧ f.nvars = sc.partialDims.nvars ∧ f.nprimals = 0 := by
+  by_cases hr : r = .foreign
+  · rw [hr, conclude_foreign] at h; simp at h
+  · rw [conclude_raised sc a w _ r hr] at h
+    cases hw : wantsFile a w <;> cases ho : sc.out.canOpen <;>
+      simp [Stage.insideRun, Stage.handlerAvailable, hw, ho] at h
+    obtain ⟨rfl, _⟩ := h
+    simp [errFile, errDims, Stage.dimsKnown]
 
 /-- **Code class.** Whenever a `.sol` is written its code is in the class of the cause
 (the solver's own code if nothing went wrong; 200–299 for infeasibility; 500–999 for failures;
@@ -127,12 +149,12 @@ the raiser's code for `Abort(c)`/sol-check), *unless* the exception object was b
 the `EXIT_FAILURE` ctors. -/
 theorem C09_code_class_partial (sc : Scenario) (e : Ending) (k : Cause) (f : SolFile) (ech : Bool)
     (h : conclude sc e = .sol f ech) (hk : e.cause = some k)
-    (hctor : ∀ a w st r, e = .raised a w st r → r.exitFailureCtor = false) :
+    (hctor : ∀ a w st r, e = .raised a w st r → r.exitFailureCtor = false ∧ r ≠ .wrappedInfeas) :
     codeOK sc.answer k f.code := by
   cases e with
   | info => simp [conclude] at h
   | raised a w st r =>
-    have hc := hctor a w st r rfl
+    obtain ⟨hc, hwi⟩ := hctor a w st r rfl
     simp only [Ending.cause, Option.some.injEq] at hk
     by_cases hr : r = .foreign
     · rw [hr, conclude_foreign] at h; simp at h
@@ -144,7 +166,7 @@ theorem C09_code_class_partial (sc : Scenario) (e : Ending) (k : Cause) (f : Sol
         obtain ⟨rfl, _⟩ := h
         simp only [errFile]
         rw [reportCode_of_raise, ← hk]
-        cases r <;> simp [Raise.cause, codeOK, Raise.exitFailureCtor] at hc ⊢
+        cases r <;> simp [Raise.cause, codeOK, Raise.exitFailureCtor] at hc hwi ⊢
         rename_i c
         by_cases hc0 : 0 ≤ c <;> simp [hc0, codeOK]
   | finished a w =>
@@ -170,6 +192,18 @@ theorem C09_code1_general (sc : Scenario) (a : Bool) (w : Nat) (st : Stage) (r :
     simp only [errFile]
     rw [reportCode_of_raise]
     cases r <;> simp [Raise.exitFailureCtor] at hr ⊢
+
+/-- **`infeas500`, exactly.** Every `.sol` written for a wrapped infeasibility carries 500. -/
+theorem C09_infeas500_general (sc : Scenario) (a : Bool) (w : Nat) (st : Stage) (f : SolFile) (ech : Bool)
+    (h : conclude sc (.raised a w st .wrappedInfeas) = .sol f ech) :
+    f.code = 500 ∧ (Ending.raised a w st .wrappedInfeas).cause = some .infeasible := by
+  rw [conclude_raised sc a w st _ (by simp)] at h
+  cases hi : st.insideRun
+  · rw [hi] at h; simp [Raise.toExn] at h
+  · cases hh : st.handlerAvailable <;> cases hw : wantsFile a w <;> cases ho : sc.out.canOpen <;>
+      simp [hi, hh, hw, ho] at h
+    obtain ⟨rfl, _⟩ := h
+    simp [errFile, Raise.toExn, Exn.reportCode, solFAILURE, Ending.cause, Raise.cause]
 
 /-- **Completeness of the file = ability to flush**, for every ending (`writeerr`, exactly). -/
 theorem C09_complete_iff_flush (sc : Scenario) (e : Ending) (f : SolFile) (ech : Bool)
@@ -308,38 +342,6 @@ theorem C09_file_whenever_possible (sc : Scenario) (e : Ending)
 
 /-! ## The property, for every scenario outside the deviation classes -/
 
-/-- An ending outside the deviation classes. -/
-def Regular (sc : Scenario) (e : Ending) : Prop :=
-  -- writeerr
-  (sc.out.canOpen = true → sc.out.canFlush = true) ∧
-  match e with
-  | .info => True
-  | .finished a w => wantsFile a w = true                                   -- standalone
-  | .raised a w st r =>
-      r ≠ .foreign ∧                                                          -- foreign
-      r.exitFailureCtor = false ∧                                             -- code1
-      (st = .options → sc.dims = ⟨0, 0⟩) ∧                                    -- optdims
-      (st.handlerAvailable = true → wantsFile a w = true) ∧                   -- standalone
-      (st = .ctor → ∀ c, r.toExn = .mpError c → c % 256 ≠ 0)                  -- ctorcode
-
-instance (sc : Scenario) (e : Ending) : Decidable (Regular sc e) := by
-  unfold Regular
-  cases e with
-  | info => exact inferInstance
-  | finished a w => exact inferInstance
-  | raised a w st r =>
-    -- the last conjunct quantifies over `c`, but `r.toExn` determines it
-    have : Decidable (st = .ctor → ∀ c, r.toExn = .mpError c → c % 256 ≠ 0) :=
-      match hx : r.toExn with
-      | .mpError c0 =>
-        if hst : st = .ctor then
-          if hc : c0 % 256 ≠ 0 then isTrue (fun _ c h => by cases h; exact hc)
-          else isFalse (fun h => hc (h hst c0 rfl))
-        else isTrue (fun h => absurd h hst)
-      | .stdExn => isTrue (fun _ c h => by cases h)
-      | .foreign => isTrue (fun _ c h => by cases h)
-    exact inferInstance
-
 /-- **C09 (partial).** Every run that ends outside the deviation classes ends in one of the two
 allowed outcomes: a complete `.sol` with the header's dimensions and a code of the cause's class,
 or — only when no file can be written — `Error: …` on stderr with a non-zero exit status. -/
@@ -357,7 +359,7 @@ theorem C09_outcome_partial_end (sc : Scenario) (e : Ending) (hreg : Regular sc 
       cases hd : sc.answer.haveDual <;> cases hp : sc.answer.havePrimal <;>
         simp [GoodEnd, Ending.cause, hreg, ho, hfl, codeOK, okFile, hd, hp]
   | raised a w st r =>
-    obtain ⟨hnf, hcode, hopt, hwant, hctor⟩ := hreg
+    obtain ⟨hnf, hcode, hwi, hopt, hpop, hwant, hctor⟩ := hreg
     rw [conclude_raised sc a w st r hnf]
     cases hi : st.insideRun
     · -- constructor stage: RunBackendApp's catch clauses
@@ -375,20 +377,18 @@ theorem C09_outcome_partial_end (sc : Scenario) (e : Ending) (hreg : Regular sc 
         cases ho : sc.out.canOpen
         · simp [GoodEnd, Ending.cause, cannotWrite, hh, hw, ho]
         · have hfl := hflush ho
-          have hdn : (if st.dimsKnown then sc.dims.ncons else 0) = sc.dims.ncons := by
+          have hdn : errDims sc st = sc.dims := by
             by_cases hso : st = .options
-            · rw [hopt hso]; simp
-            · rw [dimsKnown_of_handler_ne_options st hh hso]; simp
-          have hdv : (if st.dimsKnown then sc.dims.nvars else 0) = sc.dims.nvars := by
-            by_cases hso : st = .options
-            · rw [hopt hso]; simp
-            · rw [dimsKnown_of_handler_ne_options st hh hso]; simp
+            · subst hso; rw [hopt rfl]; simp [errDims, Stage.dimsKnown]
+            · by_cases hsp : st = .populate
+              · subst hsp; rw [← hpop rfl]; simp [errDims, Stage.dimsKnown]
+              · simp [errDims, dimsKnown_of_handler_ne_options st hh hso hsp]
           have hcls : codeOK sc.answer r.cause r.toExn.reportCode := by
             rw [reportCode_of_raise]
-            cases r <;> simp [Raise.cause, codeOK, Raise.exitFailureCtor] at hcode ⊢
+            cases r <;> simp [Raise.cause, codeOK, Raise.exitFailureCtor] at hcode hwi ⊢
             rename_i c
             by_cases hc : 0 ≤ c <;> simp [hc, codeOK]
-          simp [GoodEnd, Ending.cause, hh, hw, ho, hfl, errFile, hdn, hdv, hcls]
+          simp [GoodEnd, Ending.cause, hh, hw, ho, hfl, errFile, hdn, hcls]
 
 /-- **C09 (partial), stated on scenarios.** -/
 theorem C09_outcome_partial (sc : Scenario) (hreg : Regular sc (ending sc)) : Good sc (run sc) :=
@@ -397,9 +397,10 @@ theorem C09_outcome_partial (sc : Scenario) (hreg : Regular sc (ending sc)) : Go
 /-- `C09_dims` for whole runs: a written `.sol` has the header's dimensions unless the run ended
 in the option window. -/
 theorem C09_dims_run_partial (sc : Scenario) (f : SolFile) (ech : Bool) (h : run sc = .sol f ech)
-    (hwin : ∀ a w r, ending sc ≠ .raised a w .options r) :
+    (hwin : ∀ a w r, ending sc ≠ .raised a w .options r)
+    (hpop : ∀ a w r, ending sc ≠ .raised a w .populate r) :
     f.ncons = sc.dims.ncons ∧ f.nvars = sc.dims.nvars :=
-  let t := C09_dims_partial sc (ending sc) f ech h hwin
+  let t := C09_dims_partial sc (ending sc) f ech h hwin hpop
   ⟨t.1, t.2.1⟩
 
 /-- The happy path at full strength: no fault, clean flags and options, a stub, `-AMPL`, a
@@ -427,12 +428,20 @@ theorem C09_bad_option_ending (sc : Scenario) (pre : List Opt) (x : Opt) (post :
   simp [ending, faultBefore, hfault, parseFlags_passing _ _ hflags, hstub, hopts,
     parseOpts_split pre x post _ hpre hx]
 
+/-- Exceptions while reporting suffixes are swallowed (`StdBackend::ReportSuffixes`): the run ends
+as if there had been none. -/
+theorem C09_suffix_exceptions_swallowed (sc : Scenario) (r : Raise) (hr : r ≠ .foreign) :
+    run { sc with fault := some (.suffixes, r) } = run { sc with fault := none } := by
+  simp only [run, ending, faultBefore, Stage.idx]
+  simp [hr]
+  rfl
+
 /-! ## Counterexamples to the full-strength statement (each replayed on the real driver) -/
 
 /-- a small valid model: 1 constraint, 2 variables, solver answers 0 with a primal vector -/
 def scBase : Scenario :=
   { flags := [], hasStub := true, ampl := true, opts := [], objnoTooBig := false,
-    dims := ⟨1, 2⟩, out := ⟨true, true⟩, fault := none, answer := ⟨0, true, true⟩ }
+    dims := ⟨1, 2⟩, partialDims := ⟨0, 0⟩, out := ⟨true, true⟩, fault := none, answer := ⟨0, true, true⟩ }
 
 /-- `recsolver stub -AMPL foo=1`: `.sol` with count lines 0 0 0 0 for a 1×2 model. -/
 theorem C09_counterexample_optdims :
@@ -444,6 +453,20 @@ theorem C09_counterexample_code1 :
     run { scBase with fault := some (.body, .readError) } = .sol ⟨1, 1, 0, 2, 0, true⟩ false ∧
     ¬ Good { scBase with fault := some (.body, .readError) } (run { scBase with fault := some (.body, .readError) }) ∧
     ¬ Good { scBase with fault := some (.convert, .unsupported) } (run { scBase with fault := some (.convert, .unsupported) }) := by
+  decide
+
+/-- a header whose counts are inconsistent (`MP_ASSERT_ALWAYS … num_vars mismatch` after
+`AddVariables`): variables populated, constraints not yet. -/
+theorem C09_counterexample_hdrdims :
+    run { scBase with partialDims := ⟨0, 2⟩, fault := some (.populate, .plain) } = .sol ⟨500, 0, 0, 2, 0, true⟩ false ∧
+    ¬ Good { scBase with partialDims := ⟨0, 2⟩, fault := some (.populate, .plain) }
+        (run { scBase with partialDims := ⟨0, 2⟩, fault := some (.populate, .plain) }) := by decide
+
+/-- binary `b` fixed to 1 and the logical constraint `not (b = 1)`: "Model infeasible: empty variable
+domain", solve code 500. -/
+theorem C09_counterexample_infeas500 :
+    run { scBase with fault := some (.convert, .wrappedInfeas) } = .sol ⟨500, 1, 0, 2, 0, true⟩ false ∧
+    ¬ Good { scBase with fault := some (.convert, .wrappedInfeas) } (run { scBase with fault := some (.convert, .wrappedInfeas) }) := by
   decide
 
 /-- `<stub>.sol` → `/dev/full`: incomplete file, exit status 0. -/
